@@ -46,14 +46,16 @@ var registry = []Harness{
 		Quick: [][]int{{0}, {1}},
 		Bound: "mint, two locks of one owner (amounts, until in -3..300 symbolic), optional burn of the first (0..y1), two ticks with symbolic epochs 1..300 (param: delivered directly / through the Netmap fan-out)"},
 	{Prop: "C08", Pkg: "netmap", Func: "VerifC08Resize", Link: []string{"netmap"},
-		Quick: [][]int{{10, 3, 1}, {3, 4, 0}, {3, 5, 2}, {2, 3, 1}, {4, 2, 1}},
-		Bound: "count c0 (param 0) set at epoch 0, t0 ticks (param 1), resize to symbolic count 0..6, t1 ticks (param 2, plus one if 0); symbolic queries snapshot(d) d in -1..7, snapshotByEpoch(q), listNodes(q2); one node per published map carrying its epoch"},
+		Quick:    [][]int{{10, 3, 1, 6}, {3, 4, 0, 6}, {3, 5, 2, 6}, {2, 3, 1, 6}, {4, 2, 1, 6}},
+		Thorough: [][]int{{10, 3, 1, 12}, {3, 4, 0, 12}, {3, 5, 2, 12}, {2, 3, 1, 12}, {4, 2, 1, 12}, {10, 11, 1, 12}, {10, 12, 2, 12}, {10, 13, 0, 12}, {5, 7, 2, 12}, {5, 9, 3, 12}, {6, 6, 1, 12}, {4, 9, 0, 12}, {2, 1, 3, 12}, {7, 14, 2, 12}, {10, 0, 2, 12}},
+		Unwind: 40,
+		Bound: "count c0 (param 0) set at epoch 0, t0 ticks (param 1), resize to symbolic count 0..param 3 (6 quick, 12 thorough), t1 ticks (param 2, plus one if 0); symbolic queries snapshot(d) d in -1..7, snapshotByEpoch(q), listNodes(q2); one node per published map carrying its epoch"},
 	{Prop: "C06", Pkg: "netmap", Func: "VerifC06Tick", Link: []string{"netmap", "balance", "probe1", "probe2"},
 		Bound: "3 legacy candidates (Online, Maintenance, Offline->removed), 1 structured, subscribers Balance+probe1+probe2 (probe1 subscribed twice), probe2 refuses one symbolic epoch; two newEpoch invocations with symbolic epochs -2..1000 and symbolic Alphabet signature"},
 	{Prop: "C07", Pkg: "netmap", Func: "VerifC07Candidates", Link: []string{"netmap"},
 		Quick: [][]int{{2, 0}, {1, 1}, {1, 2}}, Thorough: [][]int{{3, 0}, {2, 1}, {2, 2}},
 		Bound: "fixture param1 (0: empty; 1/2: n0 held by both lists in different states), then k (param0) consecutive operations, each with symbolic method (addPeer/addPeerIR/addNode/updateState/updateStateIR/deleteNode), symbolic target in the pool {n0,n1}, symbolic state in Z, symbolic Alphabet and node signatures; reference model tracks n0"},
-	{Prop: "C17", Pkg: "neofs", Func: "VerifC17Ballots", Link: []string{"neofs", "processing"},
+	{Prop: "C17", Unwind: 64, Pkg: "neofs", Func: "VerifC17Ballots", Link: []string{"neofs", "processing"},
 		Quick:    [][]int{{0, 1, 3}, {0, 3, 4}, {0, 4, 4}, {1, 4, 4}, {2, 4, 3}, {3, 4, 3}},
 		Thorough: [][]int{{0, 1, 4}, {0, 2, 4}, {0, 3, 5}, {0, 4, 5}, {0, 5, 5}, {0, 6, 5}, {0, 7, 5}, {1, 3, 4}, {1, 4, 5}, {1, 7, 5}, {2, 3, 4}, {2, 4, 4}, {2, 7, 5}, {3, 3, 4}, {3, 4, 4}, {3, 7, 5}},
 		Bound:    "NeoFS contract without Notary, n stored Alphabet keys (param 1), k invocations (param 2) of one method (param 0: setConfig/cheque/alphabetUpdate/innerRingCandidateRemove), each by a symbolic caller (member 0..n-1 or a stranger) for one of two decision ids after a symbolic gap of 0..25 blocks; reference model: live-ballot reading (DESIGN.md C17)"},
@@ -77,6 +79,9 @@ var registry = []Harness{
 	{Prop: "C20", Pkg: "audit", Func: "VerifC20Audit", Link: []string{"audit"},
 		Quick: [][]int{{1, 1, 1}, {2, 1, 1}, {0, 1, 1}, {1, 2, 2}, {3, 2, 2}}, Thorough: allTriples(4),
 		Bound: "two audit results put by two Inner Ring members: well-formed V2 header (version length 0), epoch = two symbolic low bytes (classes given by params: 0 / 1..127 / 128..32767 / 32768..65535), symbolic 32-byte container ids; list, get, listByEpoch/CID/Node with symbolic query epoch"},
+	{Prop: "C20", Pkg: "container", Func: "VerifC20Estimations", Link: []string{"nns", "netmap", "balance", "neofsid", "container"},
+		Quick: [][]int{{1, 1, 1}, {2, 1, 1}, {2, 2, 2}}, Thorough: [][]int{{1, 1, 1}, {2, 1, 1}, {1, 2, 2}, {2, 2, 2}, {1, 2, 1}},
+		Bound: "five linked contracts, one container, one storage node of the previous epoch's map; two putContainerSize with symbolic epochs (classes 1..127 / 128..32767 by params) and sizes, three refused attempts, iterateContainerSizes for a symbolic epoch, one tick with a symbolic epoch 3..32767 and its clean-up"},
 	{Prop: "C20", Pkg: "neofsid", Func: "VerifC20NeoFSID", Link: []string{"neofsid"},
 		Bound: "addKey(o1,[k1,k2]) addKey(o2,[k3]) removeKey(o3,[k4]) with symbolic 25-byte owners and 33-byte keys free to coincide; key(oq) for symbolic oq"},
 	{Prop: "C18", Unwind: 300, Pkg: "nns", Func: "VerifC18IPv4Shape", Link: []string{"nns"},
@@ -160,6 +165,9 @@ var registry = []Harness{
 	{Prop: "C03", Pkg: "proxy", Func: "VerifC03Verify", Link: []string{"alphabet", "netmap", "neofs", "processing", "proxy"},
 		Quick: [][]int{{7}}, Thorough: [][]int{{1}, {3}, {7}},
 		Bound: "verify of Proxy, Alphabet and Processing with the same symbolic signer set"},
+	{Prop: "C16", Pkg: "proxy", Func: "VerifC16Preserve", Link: []string{"alphabet", "audit", "balance", "container", "neofs", "neofsid", "netmap", "nns", "processing", "proxy", "reputation"},
+		Quick: [][]int{{0}, {1}, {2}, {3}},
+		Bound: "data preservation on the CURRENT storage layout: Balance (two accounts, a lock, supply), Netmap (epoch, maps, candidates, configuration, ticking), Container (blob, owner index, eACL), NNS (name, owner, record) are built through the API, then upgraded from a release reporting a symbolic supported version; the read API must answer as before. Old storage layouts are NOT generated"},
 }
 
 func c03Params(sizes []int) [][]int {
@@ -228,6 +236,7 @@ func allTriples(n int) [][]int {
 	}
 	return out
 }
+
 
 
 
